@@ -47,8 +47,21 @@ type Package struct {
 func (p *Package) Singletons() []*Package {
 	var out []*Package
 	for i, c := range p.Cases {
-		q := &Package{Name: fmt.Sprintf("%ss%d", p.Name, i), Files: map[string]string{}, Prelude: p.Prelude}
-		src := "package " + q.Name + "\n\n" + p.Prelude + "\n"
+		// keep only the imports this case uses (Go rejects unused imports)
+		var pre []string
+		for _, l := range strings.Split(p.Prelude, "\n") {
+			if strings.HasPrefix(l, "import \"") {
+				path := strings.Trim(strings.TrimPrefix(l, "import "), "\"")
+				base := path[strings.LastIndex(path, "/")+1:]
+				if !strings.Contains(c.Src, base+".") && !strings.Contains(strings.Join(strings.Split(p.Prelude, "\n"), " "), " "+base+".") {
+					continue
+				}
+			}
+			pre = append(pre, l)
+		}
+		prelude := strings.Join(pre, "\n")
+		q := &Package{Name: fmt.Sprintf("%ss%d", p.Name, i), Files: map[string]string{}, Prelude: prelude}
+		src := "package " + q.Name + "\n\n" + prelude + "\n"
 		from := strings.Count(src, "\n") + 1
 		src += c.Src + "\n"
 		c.File, c.FromLine, c.ToLine = "gen.go", from, strings.Count(src, "\n")
